@@ -485,6 +485,14 @@ def rule_slot_exhaustion(ctx):
                     types_seen.add(sadt["path"])
                     _, calls, _ = data_deps(b, s.node["args"][1])
                     ok = any(strip_generics(callee_name(callee_of(c)) or "") == opath + "::assumptions" for c in calls)
+                    if not ok:
+                        # ... built by a private helper of the solver (`query_assumptions(arg)`) that asks the encoder
+                        for c in calls:
+                            t = prog.body_for_callee(callee_of(c), b) if callee_of(c) else None
+                            if t is not None and t.kind != "closure" and t.impl and t.impl.get("self_adt") == sadt["path"] and "Vec<sat::sat_solver::Literal>" in t.ret_ty:
+                                _, c2, _ = data_deps(t, {"l": 0, "p": []})
+                                if any(strip_generics(callee_name(callee_of(x)) or "") == opath + "::assumptions" for x in c2):
+                                    ok = True
                     r.check(ok, b.id, "stale-assumptions", "assumptions are recomputed from the framework inside the query", "the query does not recompute the attack assumptions from the current framework", s.loc())
     r.note("%d SAT calls of the attack-assumption solvers analysed" % n)
     r.floor(len(types_seen), 2, "attack-assumption solver types whose SAT calls were analysed")
